@@ -366,6 +366,7 @@ static void nx_run(int argc_ed, char **argv_ed)
 		nx_in_leaf = 0;
 		nx_trace_snapshot(argc_ed, argv_ed);
 		nvx_fedlen = keep;		/* the set-up input fed before nx_run belongs to the trace */
+		alarm(nx_horizon);		/* start-up and the set-up input are under the horizon too */
 		nv_main(argc_ed, argv_ed);
 		alarm(0);
 		nx_exited = 1;
